@@ -44,10 +44,18 @@ def pieces():
                     ('mulrat', ('Rational', 'Integer')), ('divrat', ('Rational', 'Integer')), ('rdivrat', ('Integer',)), ('powrat', ('Integer',))):
         for a in args:
             rin.append(Piece(RH, r'inline RCP<const Number> %s\(const %s &other\) const' % (m, a), rules=TOK))
-    return {'glue.inc': glue, 'integer_inline.inc': iin, 'rational_inline.inc': rin}
+    ovr = [R(r'\) const override\b', ') const', n='*', regex=True, why="'override' is rejected by the front end")]
+    iin.append(Piece(IH, r'^    inline RCP<const Integer> addint\(const Integer &other\) const', region_end=r'mulint\(const Integer &other\) const\s*\{[\s\S]*?\n    \}',
+                     rules=[R('make_rcp<const Integer>(', 'integer(', n=3, why="RCP<const Integer> converts implicitly to RCP<const Number>: the stub constructor returning the Number view")] + TOK,
+                     name='Integer: addint, subint, mulint [one verbatim region of the class body]'))
+    idisp = [Piece(IH, r'^    RCP<const Number> add\(const Number &other\) const override', region_end=r'RCP<const Number> rpow\(const Number &other\) const override\s*\{[\s\S]*?\n    \};',
+                   rules=ovr + TOK, name='Integer: dispatchers add .. rpow [one verbatim region of the class body]')]
+    rdisp = [Piece(RH, r'^    RCP<const Number> add\(const Number &other\) const override', region_end=r'RCP<const Number> rpow\(const Number &other\) const override\s*\{[\s\S]*?\n    \};',
+                   rules=ovr + TOK, name='Rational: dispatchers add .. rpow [one verbatim region of the class body]')]
+    return {'glue.inc': glue, 'integer_inline.inc': iin, 'rational_inline.inc': rin, 'integer_dispatch.inc': idisp, 'rational_dispatch.inc': rdisp}
 
 HS = ['h_divint', 'h_powint', 'h_from_two_ints', 'h_from_mpq', 'h_rat_ops', 'h_powrat', 'h_complex_from']
-HS_ABS = HS + ['h_powcomp']
+HS_ABS = HS + ['h_powcomp', 'h_dispatch']
 
 def units(tier):
     big = tier == 'thorough'
@@ -64,6 +72,9 @@ def units(tier):
                 [Entry(h, timeout=600, unwindset=uw, unwind=4, mem_gb=6,
                        bounds="operands in [-12,12] (integers), num in [-4,4] / den in [2,4] (rationals), |exponent| <= 4; exact machine arithmetic, no overflow in range") for h in HS],
                 route='B', trusted=absu.trusted, assumptions=absu.assumptions)
+    for k, nm in enumerate(('add', 'sub', 'mul', 'div', 'pow')):
+        conc.entries.append(Entry('h_dispatch', defines={'DISPATCH_OP': k}, timeout=900, unwindset=uw, unwind=4, mem_gb=6, label='h_dispatch_' + nm,
+                                  bounds="Integer/Rational operands with |num| <= 4, den <= 4, exponent |e| <= 3; exact machine arithmetic"))
     return [absu, conc]
 
 def replay_args(obl, inputs, res):
